@@ -10,7 +10,7 @@ import z3
 from .core import (Ctx, Obligation, Unsupported, Infeasible, PathEnd, PyRaise, Val, Num, Bool, Vec, NONE, zint)
 from .extract import Loader, RepoFunc
 from .interp import Interp, LoopSpec, ReturnEx
-from . import lib_py, lib_np, lib_sp, lib_sets, lib_io  # noqa: F401  (register library contracts)
+from . import lib_py, lib_np, lib_sp, lib_sets, lib_io, lib_sp_blocks  # noqa: F401  (register library contracts)
 
 Z3_TIMEOUT_MS = int(os.environ.get("PYVC_Z3_TIMEOUT_MS", "20000"))
 
